@@ -26,29 +26,64 @@ def alC08 : BP → Bool
   | .listItem => false
   | _ => true
 
-theorem frames_all (al : BP → Bool) (hnl : ∀ bp, al bp = true → bp.notList = true) : Frames al where
+theorem frames_all (al : BP → Bool) (hnl : ∀ bp, al bp = true → bp.notList = true) (hl : al .list = false) : Frames al where
   open_ := fun bp parent s a s' h hal ha =>
     ⟨by rw [bpOpen_opened bp parent s s' a h]; exact ha.opened,
      bpOpen_tmp bp parent s s' a h (fun b hb => (ha.opened b hb).2) ha.tmp,
      bpOpen_fence bp parent s s' a h ha.fence,
-     us_bpOpen bp (hnl bp hal) parent s a s' ha.u h,
+     ustoreL_bpOpen bp parent s a s' ha.u h,
+     (fun _ n hn => ((us_bpOpen bp (hnl bp hal) parent s a s' (ha.us hl) h).node n hn).kind),
      by rw [bpOpen_opened bp parent s s' a h]; exact ha.pk.kg (kgn_of_keeps (fun n0 => kg_bpOpen n0 bp (hnl bp hal) parent) h)⟩
   cont := fun bp node s a s' h hal hn0 ha =>
     ⟨by rw [bpContinue_opened bp node s s' a h]; exact ha.opened,
      bpContinue_tmp bp node s s' a h ha.tmp,
      bpContinue_fence bp node s s' a h ha.fence,
-     us_bpContinue bp (hnl bp hal) node hn0 s a s' ha.u h,
+     ustoreL_bpContinue bp node hn0 s a s' ha.u h,
+     (fun _ n hn => ((us_bpContinue bp (hnl bp hal) node hn0 s a s' (ha.us hl) h).node n hn).kind),
      by rw [bpContinue_opened bp node s s' a h]; exact ha.pk.kg (kgn_of_keeps (fun n0 => kg_bpContinue n0 bp (hnl bp hal) node) h)⟩
   close := fun bp node s a s' h hal hn0 ha =>
     ⟨by rw [bpClose_opened bp node s s' a h]; exact ha.opened,
      bpClose_tmp bp node s s' a h ha.tmp,
      bpClose_fence bp node s s' a h ha.fence,
-     us_bpClose bp (hnl bp hal) node hn0 s a s' ha.u h,
+     ustoreL_bpClose bp node hn0 s a s' ha.u h,
+     (fun _ n hn => ((us_bpClose bp (hnl bp hal) node hn0 s a s' (ha.us hl) h).node n hn).kind),
      by rw [bpClose_opened bp node s s' a h]; exact ha.pk.kg (kgn_of_keeps (fun n0 => kg_bpClose n0 bp (hnl bp hal) node) h)⟩
   openKG := fun bp parent s a s' h hal => kgn_of_keeps (fun n0 => kg_bpOpen n0 bp (hnl bp hal) parent) h
   contKG := fun bp node s a s' h hal => kgn_of_keeps (fun n0 => kg_bpContinue n0 bp (hnl bp hal) node) h
   closeKG := fun bp node s a s' h hal => kgn_of_keeps (fun n0 => kg_bpClose n0 bp (hnl bp hal) node) h
   openNR := fun bp parent s a s' id h hid hal => bpOpen_kind bp (hnl bp hal) parent h id hid
+  req := fun bp parent s a s' h hr => (requirePara_setext bp parent s s' a h hr).2
+  nonePos := fun bp parent s a s' h hn => bpOpen_none_pos bp parent s s' a h hn
+  contOpened := fun bp node s a s' h => bpContinue_opened bp node s s' a h
+
+/-- the unary facts for the set of ALL ten block parsers (the two list parsers included): the store invariant is the
+    one without the kind clause (`UStoreL`), `NK` is vacuous -/
+theorem frames_lists : Frames (fun _ => true) where
+  open_ := fun bp parent s a s' h _ ha =>
+    ⟨by rw [bpOpen_opened bp parent s s' a h]; exact ha.opened,
+     bpOpen_tmp bp parent s s' a h (fun b hb => (ha.opened b hb).2) ha.tmp,
+     bpOpen_fence bp parent s s' a h ha.fence,
+     ustoreL_bpOpen bp parent s a s' ha.u h,
+     (fun hl => by cases hl),
+     by rw [bpOpen_opened bp parent s s' a h]; exact ha.pk.kg (kgn_bpOpen bp parent h)⟩
+  cont := fun bp node s a s' h _ hn0 ha =>
+    ⟨by rw [bpContinue_opened bp node s s' a h]; exact ha.opened,
+     bpContinue_tmp bp node s s' a h ha.tmp,
+     bpContinue_fence bp node s s' a h ha.fence,
+     ustoreL_bpContinue bp node hn0 s a s' ha.u h,
+     (fun hl => by cases hl),
+     by rw [bpContinue_opened bp node s s' a h]; exact ha.pk.kg (kgn_bpContinue bp node h)⟩
+  close := fun bp node s a s' h _ hn0 ha =>
+    ⟨by rw [bpClose_opened bp node s s' a h]; exact ha.opened,
+     bpClose_tmp bp node s s' a h ha.tmp,
+     bpClose_fence bp node s s' a h ha.fence,
+     ustoreL_bpClose bp node hn0 s a s' ha.u h,
+     (fun hl => by cases hl),
+     by rw [bpClose_opened bp node s s' a h]; exact ha.pk.kg (kgn_bpClose bp node h)⟩
+  openKG := fun bp parent s a s' h _ => kgn_bpOpen bp parent h
+  contKG := fun bp node s a s' h _ => kgn_bpContinue bp node h
+  closeKG := fun bp node s a s' h _ => kgn_bpClose bp node h
+  openNR := fun bp parent s a s' id h hid _ => bpOpen_kind' bp parent h id hid
   req := fun bp parent s a s' h hr => (requirePara_setext bp parent s s' a h hr).2
   nonePos := fun bp parent s a s' h hn => bpOpen_none_pos bp parent s s' a h hn
   contOpened := fun bp node s a s' h => bpContinue_opened bp node s s' a h
@@ -62,6 +97,11 @@ theorem ustore_init : UStore [({ kind := .document } : Node)] := by
   simp only [List.mem_singleton] at hn
   subst hn
   exact ⟨⟨by decide, by decide⟩, by intro h; cases h⟩
+
+theorem ustoreL_init : UStoreL [({ kind := .document } : Node)] := ustore_init.toL
+
+theorem nk_init (al : BP → Bool) : NK al [({ kind := .document } : Node)] :=
+  fun _ => fun n hn => (ustore_init.node n hn).kind
 
 theorem contW {src bp} (h : ContinueSim src bp) : ∀ k ls p node sA sB, SR src k ls p sA sB →
     S2 (fun a b sA' sB' => b = a ∧ ∃ p', SR src k ls p' sA' sB') (bpContinue bp node sA) (bpContinue bp (node + 1) sB) :=
@@ -82,7 +122,7 @@ theorem ps_all (src : Bytes) : PS src alC08 where
     | html => exact htmlOpen_sim src
     | paragraph => exact paragraphOpen_sim src
   cont := by
-    intro bp hal k ls p node sA sB hs hn0 ha hp hns
+    intro bp hal k ls p node sA sB hs hn0 ha hp hns _
     cases bp with
     | setext => exact contW (setextContinue_sim src) k ls p node sA sB hs
     | thematic => exact contW (thematicContinue_sim src) k ls p node sA sB hs
@@ -118,11 +158,11 @@ theorem ps_all (src : Bytes) : PS src alC08 where
 def NoListTrigger (src : Bytes) : Prop := ∀ c ∈ src, c ≠ 45 ∧ c ≠ 42 ∧ c ≠ 43 ∧ isNumeric c = false
 
 /-- every parser that can be tried on a line is covered (`alC08`) or is a list parser (handled by `OT.lsim / ldecl`) -/
-theorem trig_all (src : Bytes) : TrigOK src alC08 where
+theorem trig_all (src : Bytes) (hno : NoItem src) : TrigOK src alC08 where
   free := by intro bp hb; simp [freeParsers] at hb; rcases hb with rfl | rfl <;> exact .inl rfl
   trig := by
     intro c _ bp hb
-    cases bp <;> first | exact .inl rfl | exact .inr rfl
+    cases bp <;> first | exact .inl rfl | exact .inr ⟨rfl, rfl, hno⟩
 
 theorem matchesListItem_notList_of_parse {v : Bytes} {b : Bool} (h : (parseListItem v).2 = ListTyp.notList) :
     (matchesListItem v b).2 = ListTyp.notList := by
@@ -211,10 +251,10 @@ theorem qp_length_ne {src : Bytes} (h : src ≠ []) : src.length + 2 ≤ (quoteP
 
 theorem cls_of {src} (h : C08ClassL src) : Cls src alC08 where
   ps := ps_all src
-  fr := frames_all _ alC08_notList
+  fr := frames_all _ alC08_notList rfl
   ot := ot_all src h.noitem
   ns := ns_of_last_ne h.last
-  tr := trig_all src
+  tr := trig_all src h.noitem
   tf := h.tf
   h0 := lineAt_zero_qs src h.ne
   shape := fun _ _ hl hb => blank_shape_w h.tf h.cr h.last hl hb
@@ -231,7 +271,8 @@ theorem storeRel_init (src : Bytes) (blank : Bool) :
     cases i with
     | zero =>
       exact ⟨⟨rfl, rfl⟩, ⟨rfl, rfl⟩, rfl, trivial, rfl, rfl, rfl, rfl, rfl, rfl, rfl, trivial, .inl ⟨by decide, rfl⟩,
-        (fun _ l hl => by cases hl), (fun i hi => by cases hi), (fun h => absurd h (by decide))⟩
+        (fun _ l hl => by cases hl), (fun i hi => by cases hi), (fun h => absurd h (by decide)),
+        (fun _ h => absurd h (by decide))⟩
     | succ j => exact nodeRel_default src
 
 theorem parseBlocks_eq (src : Bytes) :
@@ -255,7 +296,7 @@ theorem qp_length_nl (src : Bytes) : src.length + 2 * nlCount src ≤ (quotePref
 
 /-- B's first line up to the point where its Blockquote is open and its marker consumed -/
 theorem bStart {src : Bytes} (h0 : LineAt src 0 0) (fo : Nat) :
-    ∃ r' blank, RI (quotePrefix src) r' ⟨0, 2, 0⟩ ∧
+    ∃ r' blank, blank = true ∧ RI (quotePrefix src) r' ⟨0, 2, 0⟩ ∧
       blocksLoop 0 (fo + 1) [] (initSt (quotePrefix src)) =
         ((openBlocksLoop blank false (2 * (quotePrefix src).length + 7) 1 OpenResult.newBlocksOpened none) >>= fun d =>
           if (d != OpenResult.newBlocksOpened) = true then pure ()
@@ -282,7 +323,7 @@ theorem bStart {src : Bytes} (h0 : LineAt src 0 0) (fo : Nat) :
   obtain ⟨r1, e1, hr1⟩ := skipFrom_line hq0 hri hnb (4 * (initSt (quotePrefix src)).r.source.length + 63) 0
   obtain ⟨r', hr', eO⟩ := openBlocks_first h0 (s := { initSt (quotePrefix src) with r := r1 }) hr1 rfl rfl
     (isBlankLine (r1.line - 1) 0 [])
-  refine ⟨r', isBlankLine (r1.line - 1) 0 [], hr', ?_⟩
+  refine ⟨r', isBlankLine (r1.line - 1) 0 [], isBlankLine_nil _, hr', ?_⟩
   rw [blocksLoop_eq, show loopFuel (initSt (quotePrefix src)).r.source = 4 * (initSt (quotePrefix src)).r.source.length + 63 + 1 from rfl,
     bind_run e1]
   unfold blocksBody
@@ -309,11 +350,10 @@ theorem openBlocks_nil (q : Nat) (b : Bool) (s : St) (ho : s.pc.opened = []) :
   rw [bind_run e1]
   rfl
 
-/-- **The whole-run simulation.** If the block phase on `src` ends normally having read all lines, the block phase
+/-- **The whole-run simulation**, for any set `al` of simulated parsers (`Cls src al`). If the block phase on `src` ends normally having read all lines, the block phase
     on `quotePrefix src` ends normally, and the two final node stores are related. -/
-theorem run_sim {src : Bytes} (hc : C08ClassL src) {sA' : St} (hA : run src = .ok sA') :
-    ∃ sB', run (quotePrefix src) = .ok sB' ∧ FRel src sA'.nodes sB'.nodes := by
-  have cl := cls_of hc
+theorem run_simG {src : Bytes} {al : BP → Bool} (cl : Cls src al) (hne : src ≠ []) {sA' : St} (hA : run src = .ok sA') :
+    ∃ sB', run (quotePrefix src) = .ok sB' ∧ FRel src al sA'.nodes sB'.nodes := by
   have h0 := cl.h0
   have hlt0 := lt_lineEnd src h0.lt
   -- run A
@@ -329,18 +369,18 @@ theorem run_sim {src : Bytes} (hc : C08ClassL src) {sA' : St} (hA : run src = .o
     have hsrcA : (initSt src).r.source = src := (ri_init src).source
     rw [hsrcA, show loopFuel src = 4 * src.length + 63 + 1 from rfl] at hpa
     -- run B up to its open Blockquote
-    obtain ⟨r', blankB, hr', eB⟩ := bStart h0 (lineCount (quotePrefix src) + 1)
+    obtain ⟨r', blankB, hblankB, hr', eB⟩ := bStart h0 (lineCount (quotePrefix src) + 1)
     have hfuelB : nlCount src + 2 ≤ lineCount (quotePrefix src) + 1 + 1 := by
       have := qp_nlCount src
       unfold lineCount nlCount at *
       omega
     have hriA : RI src (initSt src).r ⟨((0 : Nat) : Int), 0, 0⟩ := ri_init src
     suffices hgoal : ∃ sB', parseBlocks 0 (initSt (quotePrefix src)) = .ok ((), sB') ∧
-        FRel src sAf.nodes sB'.nodes by
+        FRel src al sAf.nodes sB'.nodes by
       obtain ⟨sB', e, hrel⟩ := hgoal
       exact ⟨sB', by unfold run; rw [e]; rfl, hrel⟩
     rw [parseBlocks_eq, show linesFuel (quotePrefix src) = lineCount (quotePrefix src) + 1 + 1 from rfl, eB]
-    have hai : AInv alC08 (initSt src).pc (initSt src).nodes := ⟨fun _ hb => (by cases hb), (by intro e; cases e), fun _ hf => (by cases hf), ustore_init, PKL.nil _⟩
+    have hai : AInv al (initSt src).pc (initSt src).nodes := ⟨fun _ hb => (by cases hb), (by intro e; cases e), fun _ hf => (by cases hf), ustoreL_init, nk_init al, PKL.nil _⟩
     by_cases hb : isBlank (sub src 0 (lineEnd src 0)) = true
     · -- A skips its first line
       obtain ⟨r1, e1, hr1⟩ := skipFrom_blank h0 hriA hb (4 * src.length + 63) 0
@@ -368,14 +408,16 @@ theorem run_sim {src : Bytes} (hc : C08ClassL src) {sA' : St} (hA : run src = .o
       have e := (qp_lineEnd h0 (Nat.le_refl _) hlt0).1
       simp only [Nat.zero_add, Nat.mul_one] at e
       rw [e] at hadv
-      have hls : LS src alC08 (0 + 1) (lineEnd src 0) { initSt src with r := r1 }
+      have hls : LS src al (0 + 1) (lineEnd src 0) { initSt src with r := r1 }
           { r := r3.advanceLine,
             nodes := [{ kind := .document, children := [1] }, { kind := .blockquote, parent := some 0, blankPrev := blankB }],
             pc := { ({} : Ctx) with blockOffset := (n : Int), blockIndent := (n : Int), opened := [{ node := 1, bp := .blockquote }] } } :=
-        ⟨hc.tf, hr1, by simpa using hadv, storeRel_init src blankB, ⟨rfl, rfl, rfl, rfl, rfl⟩, hai, fun hne => absurd rfl hne⟩
-      obtain ⟨h1, _⟩ := mainP_all cl (lineCount (quotePrefix src) + 1) (0 + 1) (lineEnd src 0) _ _ hls (pos_next h0)
+        ⟨cl.tf, hr1, by simpa using hadv, storeRel_init src blankB, ⟨rfl, rfl, rfl, rfl, rfl⟩, hai, fun hne => absurd rfl hne⟩
+      obtain ⟨h1, _⟩ := mainP_all cl (lineCount (quotePrefix src) + 1) (0 + 1) (lineEnd src 0) _ _ hls
+        ((Sh.stable_init src).congr_r r1) (pos_next h0)
         (by omega) sAf
-      obtain ⟨x, sB', eL, hrel⟩ := h1 rfl _ _ _ _ hpa []
+      have hnfl : ¬ FL src := fun hfl => by rw [hfl 0 0 h0] at hb; cases hb
+      obtain ⟨x, sB', eL, hrel⟩ := h1 rfl _ _ _ _ (fun hfl => absurd hfl hnfl) hpa [] (fun hfl => absurd hfl hnfl)
       refine ⟨sB', ?_, hrel⟩
       rw [bind_run eL]
       rfl
@@ -391,19 +433,21 @@ theorem run_sim {src : Bytes} (hc : C08ClassL src) {sA' : St} (hA : run src = .o
       simp only at hpa
       rw [bind_run eg] at hpa
       obtain ⟨d, sA2, hd, hA2⟩ := bind_inv hpa
+      have hd0 := hd
       rw [openBlocks_nil _ _ _ rfl] at hd
       have hsrc1 : r1.source = src := hr1.source
       simp only at hd
       rw [hsrc1] at hd
-      have hdrl : DRL src alC08 0 0 0 { initSt src with r := r1 }
+      have hdrl : DRL src al 0 0 0 { initSt src with r := r1 }
           { r := r',
             nodes := [{ kind := .document, children := [1] }, { kind := .blockquote, parent := some 0, blankPrev := blankB }],
             pc := { ({} : Ctx) with blockOffset := 0, blockIndent := 0, opened := [{ node := 1, bp := .blockquote }] } } :=
-        ⟨⟨hc.tf, InL.start h0, hr1, hr'⟩, storeRel_init src blankB, ⟨rfl, rfl, rfl, rfl, rfl⟩, hai⟩
+        ⟨⟨cl.tf, InL.start h0, hr1, hr'⟩, storeRel_init src blankB, ⟨rfl, rfl, rfl, rfl, rfl⟩, hai⟩
       have hfuel : retryFuel src ≤ 2 * (quotePrefix src).length + 7 := by
-        have := qp_length_ne hc.ne
+        have := qp_length_ne hne
         unfold retryFuel; omega
-      obtain ⟨db, sB2, eOB, hrr, _, ⟨p', hDR⟩, hopens⟩ := openBlocksLoop_sim cl.ps cl.fr cl.ot cl.ns cl.tr _ blankB false _ _ hfuel 0
+      obtain ⟨db, sB2, eOB, hrr, _, ⟨p', hDR⟩, hopens⟩ := openBlocksLoop_sim cl.ps cl.fr cl.ot cl.ns cl.tr _ blankB false _ _ hfuel
+        (fun _ => by rw [hblankB]; rfl) 0
         OpenResult.noBlocksOpened OpenResult.newBlocksOpened none none hdrl (.inl rfl) (.inr ⟨rfl, rfl⟩) (fun hc => by cases hc) d sA2 hd
       rw [bind_run eOB]
       have hdn0 : d = OpenResult.newBlocksOpened := by
@@ -425,11 +469,18 @@ theorem run_sim {src : Bytes} (hc : C08ClassL src) {sA' : St} (hA : run src = .o
         rw [hnn]
         simp only [Bool.false_eq_true, if_false]
         obtain ⟨x, sB', eL, hrel⟩ := afterLine cl.ns (mainP_all cl (lineCount (quotePrefix src) + 1)) hDR (by omega)
-          _ _ _ hA2 []
+          _ _ _ hA2 [] (fun _ => ⟨lst_nil _, fun e => absurd e (openBlocks_new_ne _ _ _ _ _ hd0 hdn)⟩)
+          (stable_openBlocks0 (s := { initSt src with r := r1 }) ((Sh.stable_init src).congr_r r1) rfl hr1 (padOK_zero _ _) hd0)
         refine ⟨sB', ?_, hrel⟩
         obtain ⟨u2, sB3, ea, eL2⟩ := bind_inv eL
         rw [bind_run ea, bind_run eL2]
         rfl
+
+/-- **The whole-run simulation** for the class `C08ClassL` (all parsers but the two list parsers, which are tried and
+    decline). -/
+theorem run_sim {src : Bytes} (hc : C08ClassL src) {sA' : St} (hA : run src = .ok sA') :
+    ∃ sB', run (quotePrefix src) = .ok sB' ∧ FRel src alC08 sA'.nodes sB'.nodes :=
+  run_simG (cls_of hc) hc.ne hA
 
 instance (src : Bytes) (k ls : Nat) : Decidable (LineAt src k ls) :=
   decidable_of_iff (ls < src.length ∧ (ls = 0 ∨ src[ls - 1]? = some 10) ∧ lineNo src ls = k)
@@ -477,14 +528,14 @@ theorem segsNE_of_rel {src : Bytes} {sA : St} {nB : List Node} (hA : run src = .
     `quoteSimPair` are equal -/
 theorem quoteSim_of_class {src : Bytes} (hc : C08ClassL src) {sA : St} (hA : run src = .ok sA) :
     ∀ e g, quoteSimPair src = some (e, g) → e = g := by
-  obtain ⟨sB, hB, hn, hu⟩ := run_sim hc hA
-  exact quoteSimPair_eq src sA sB hA hB hn (wellShaped_of hu (segsNE_of_rel hA hn))
+  obtain ⟨sB, hB, hn, hu, hk⟩ := run_sim hc hA
+  exact quoteSimPair_eq src sA sB hA hB hn (wellShaped_of (ustore_of_L hu (hk rfl)) (segsNE_of_rel hA hn))
 
 /-- the unary facts about the original run of a source of the class that are PROVED: its final store satisfies
     `UStore` (Document without lines and nobody's child, no List / ListItem node) -/
 theorem ustore_of_class {src : Bytes} (hc : C08ClassL src) {sA : St} (hA : run src = .ok sA) : UStore sA.nodes := by
-  obtain ⟨_, _, _, hu⟩ := run_sim hc hA
-  exact hu
+  obtain ⟨_, _, _, hu, hk⟩ := run_sim hc hA
+  exact ustore_of_L hu (hk rfl)
 
 instance (src : Bytes) : Decidable (NoListTrigger src) := by unfold NoListTrigger; infer_instance
 
